@@ -20,7 +20,7 @@ EXPLANATION = (
     "bound and every constraint not flagged unsatisfiable has slack >= -1e-10 - 1e-9."
 )
 BOUNDS = {
-    "quick": dict(variables="1..3 (+ 4 on a chain/diamond)", value_box="desired positions in [-1000,1000], gaps in [0,100]", weights="patterns over {0.01,1,7,1e10}", scales="patterns over {0.5,1,4}", decisions_per_path=4000),
+    "quick": dict(variables="1..3 (+ 4 on a chain/diamond)", value_box="desired positions in [-1000,1000], gaps in [0,100]", weights="patterns over {0.01,1,7,1e10}; on 4-variable trees also (10,1,1,2), (1e10,1,1,1), (1,1,1e10,1), (2,1,10,1)", scales="patterns over {0.5,1,4}", decisions_per_path=4000),
     "thorough": dict(variables="1..4 (all 64 forward-edge subsets for n=4 with unit weights, 16 with mixed)", value_box="as quick"),
 }
 OUTSIDE = ["more than 4 variables", "weights mixing 1e10 and 0.01 on 4-variable graphs with undirected cycles (inconclusive: the over-approximated cost loop does not converge in exact arithmetic)", "symbolic weights / scales", "equality constraints (unused by labella)", "IEEE rounding", "cost optimality is asserted through position closeness inside the value box, not as a cost inequality (quadratic)"]
